@@ -69,6 +69,30 @@ theorem C10_cycles {α : Type} (dec : Cbor → Option α) (t : Tag24 α) (hb : t
       simp [Tag24.fromCbor, h1, h2]
     simp [cycles, hc, ih]
 
+/-- Lifted to a whole namespace (`IssuerSignedItemBytes` array of any length): if every element of
+a received array is accepted, re-emitting the accepted elements gives back the received array, item
+for item and in the received order — so the digests the reader (or a later holder) computes over
+the re-emitted items are the digests of what the issuer signed, for any hash function `H`. -/
+theorem C10_array_reemits {α : Type} (dec : Cbor → Option α) (cs : List Cbor) (ts : List (Tag24 α))
+    (h : cs.mapM (Tag24.fromCbor dec) = some ts) : ts.map (·.toCbor) = cs := by
+  induction cs generalizing ts with
+  | nil => simp at h; subst h; rfl
+  | cons c cs ih =>
+    rw [List.mapM_cons] at h
+    cases hc : Tag24.fromCbor dec c with
+    | none => simp [hc] at h
+    | some t =>
+      cases hr : cs.mapM (Tag24.fromCbor dec) with
+      | none => simp [hc, hr] at h
+      | some tr =>
+        simp [hc, hr] at h; subst h
+        simp [C10_tag24_reemits dec c t hc, ih tr hr]
+
+theorem C10_array_digests_stable {α : Type} (dec : Cbor → Option α) (H : Bytes → Bytes)
+    (cs : List Cbor) (ts : List (Tag24 α)) (h : cs.mapM (Tag24.fromCbor dec) = some ts) :
+    ts.map (fun t => H (enc t.toCbor)) = cs.map (fun c => H (enc c)) := by
+  rw [← C10_array_reemits dec cs ts h, List.map_map]; rfl
+
 /-- protected-header bytes, payload bytes, signature and every unprotected entry (hence the
 x5chain certificate bytes under label 33) are preserved by parse-then-emit -/
 theorem C10_cose_preserved (c : Cbor) (s : CoseSign1) (h : CoseSign1.fromCbor c = some s) : s.toCbor = c := by
@@ -85,5 +109,12 @@ example :
     let b : Bytes := [0xa1, 0x7f, 0x61, 0x61, 0xff, 0x18, 0x00]      -- {_"a"_: 0 as 1-byte uint}
     (Tag24.fromCbor some (.tag 24 (.bytes b))).map (·.bytes) = some b ∧
     (decode b).map enc = some [0xa1, 0x61, 0x61, 0x00] := by decide
+
+/-- non-vacuity of the array theorem: a two-element array with differently encoded items is accepted. -/
+example :
+    let c1 : Cbor := .tag 24 (.bytes [0x18, 0x00])
+    let c2 : Cbor := .tag 24 (.bytes [0x00])
+    (([c1, c2].mapM (Tag24.fromCbor some)).map (fun ts => ts.map (·.bytes))) = some [[0x18, 0x00], [0x00]] := by
+  decide
 
 end IsoMdl.Wire
